@@ -139,6 +139,10 @@ mod types {
 		pub struct TransparentArr(pub [u8; 32]);
 		#[repr(transparent)]
 		pub struct TransparentZst(pub PhantomData<u8>, pub [u16; 3], pub ());
+		#[repr(transparent)]
+		pub struct TransparentCompact(#[codec(compact)] pub u32);
+		#[repr(transparent)]
+		pub struct TransparentEncodedAs { #[codec(encoded_as = "Compact<u64>")] pub v: u64, pub p: PhantomData<u8> }
 	}
 
 	derive_all! {
@@ -193,6 +197,8 @@ mod types {
 	});
 	model_type!(struct TransparentArr { 0: [u8; 32] = plain });
 	model_type!(struct TransparentZst { 0: PhantomData<u8> = plain, 1: [u16; 3] = plain, 2: () = plain });
+	model_type!(struct TransparentCompact { 0: u32 = compact });
+	model_type!(struct TransparentEncodedAs { v: u64 = as_(Compact<u64>), p: PhantomData<u8> = plain });
 	model_type!(struct Named { a: u32 = plain, b: Vec<u8> = plain, c: Option<bool> = plain });
 	model_type!(struct Tup { 0: u16 = plain, 1: String = plain });
 	model_type!(struct SingleSkipRest { 0: u8 = skip, 1: Vec<u16> = plain, 2: PhantomData<u8> = skip });
